@@ -32,7 +32,54 @@ def gen(ctx):
         p = g.term(Scope(), d)
         for _ in range(2):
             cases.append(dict(filter=p, inputs=[rng.choice(inputs)], kind="random-d%d" % d))
+    # labels across recursion: a break must end the lexically matching label, also when it runs below (tail-)recursive calls
+    # and inside labels entered later (user-written or those inside first/limit/isempty)
+    for _ in range(150 if tier == "quick" else 3000):
+        cases.append(dict(filter=label_rec(rng), inputs=[from_json(rng.choice([0, 1, [[[[1]]]], None]))], kind="label-rec"))
     return cases
+
+
+def label_rec(rng):
+    pick = rng.choice
+    outs = ["a"] if rng.random() < 0.6 else ["a", "b"]
+    o = pick(outs)
+    k = pick([1, 2, 3])
+    step = pick([". + 1", ". + 1", "(. + 1, . + 2)" if False else ". + 2"])
+    base = pick([
+        "(label $i | (., break $%s, \"u\"))" % o,
+        "(label $i | (., break $i, \"u\")), \"v\"",
+        "(label $i | label $j | (., break $%s))" % o,
+        "(label $i | (., (label $j | break $i), \"u\")), break $%s" % o,
+        "first(., break $%s)" % o,
+        "first((., 7) | (., break $%s))" % o,
+        "limit(2; ., 8, break $%s)" % o,
+        "[limit(1; ., break $%s)]" % o,
+        "isempty(break $%s)" % o,
+        "isempty(., break $%s), break $%s" % (o, o),
+        "(label $i | first(break $%s, .))" % o,
+        "(label $i | (., break $i)), (label $i | (., break $%s))" % o,
+        ".",
+    ])
+    num = "(if type == \"number\" then . else 0 end)"
+    driver = pick([
+        "def f: if . < %d then (%s | f) else %s end; %s | f" % (k, step, base, num),
+        "def f: if . < %d then ., (%s | f) else %s end; %s | f" % (k, step, base, num),
+        "def f: if . < %d then (%s | f), \"nt\" else %s end; %s | f" % (k, step, base, num),
+        "def f($n): if $n > 0 then f($n - 1) else %s end; %s | f(%d)" % (base, num, k),
+        "def f(g): if . < %d then (%s | f(g)) else g end; %s | f(%s)" % (k, step, num, base),
+        "%s | recurse(if . < %d then %s else empty end) | if . >= %d then %s else . end" % (num, k, step, k, base),
+        "%s | recurse(if . < %d then %s else (%s | empty) end)" % (num, k, step, base),
+        "%s | until(. >= %d; %s) | %s" % (num, k, step, base),
+        "%s | while(. < %d; %s) | %s" % (num, k, step, base),
+        "%s | first(repeat(%s) | select(. >= %d)) | %s" % (num, step, k, base),
+        "%s | last(limit(%d; repeat(%s))) | %s" % (num, k + 1, step, base),
+        "[range(%d)] | reduce .[] as $x (0; . + 1) | %s" % (k, base),
+    ])
+    body = "(%s), \"after\"" % driver
+    for l in reversed(outs):
+        body = "label $%s | (%s), \"out-%s\"" % (l, body, l)
+    form = pick(["[%s]", "[%s]", "%s", "[(%s)?]", "[limit(6; %s)]", "[.[]? | %s] | length" if False else "[%s] | length", "try [%s] catch \"c\""])
+    return form % body
 
 
 def custom(ctx):
